@@ -1,0 +1,5 @@
+//go:build !verif
+
+package sstables
+
+func verifWriterOpened(_ *SSTableStreamWriter) {}
